@@ -86,9 +86,24 @@ def write_if_changed(path, content):
 
 # ----------------------------------------------------------------------------- translator
 
-def translate():
+# Generated files that are EXECUTABLE models exercised bit for bit by a correspondence check (K): when the translator
+# refuses a source form it does not recognise, the translation of the pinned tree (translator/snapshots/, committed,
+# written by `./check --write-fingerprints`) is used as a hand-written model instead; its tie to the current source is
+# then the correspondence alone, which the property checks run with their escalated budget (the refused generator's
+# fingerprints are missing, hence "changed").  NOT in this list: Gen/BoxSizingSites.v -- a syntactic audit of the source,
+# not an executable model; no correspondence could stand in for it.
+FALLBACK_TARGETS = {
+    'AbsPosEnums.v', 'AbsPosGen.v', 'BlockGen.v', 'CacheGen.v', 'CompactLengthGen.v', 'FiltersGen.v', 'FlexGen.v',
+    'GridTracksGen.v', 'MathGen.v', 'PlacementGen.v', 'RoundingGen.v', 'TreeMethodsGen.v',
+}
+SNAPSHOTS = os.path.join(ROOT, 'translator', 'snapshots')
+
+
+def translate(write_snapshots=False):
     """Regenerate coq/Gen/*.v from the working tree.  Returns (ok, problems, fingerprints).  A generator that
-    refuses leaves a Gen file that does not compile on purpose (so no stale model can be used)."""
+    refuses leaves a Gen file that does not compile on purpose (so no stale model can be used) -- unless the target is an
+    executable, K-tied model with a snapshot (see FALLBACK_TARGETS): then the snapshot is installed and the problem is
+    marked `fallback`."""
     import importlib
     problems = []
     fps = {}
@@ -103,11 +118,72 @@ def translate():
                 text, fp = fn(REPO)
                 fps.update({g + ':' + k: hashlib.sha256(v.encode()).hexdigest()[:16] for k, v in fp.items()})
                 write_if_changed(path, text)
+                if write_snapshots and target in FALLBACK_TARGETS:
+                    os.makedirs(SNAPSHOTS, exist_ok=True)
+                    write_if_changed(os.path.join(SNAPSHOTS, target), text)
             except Exception as ex:  # Refuse, ParseError, FileNotFoundError ...
-                problems.append({'generator': g, 'target': target, 'error': '%s: %s' % (type(ex).__name__, ex)})
-                write_if_changed(path, '(* translator refused: %s *)\nTranslator_refused_this_source_form.\n'
-                                 % str(ex).replace('*)', '* )'))
+                prob = {'generator': g, 'target': target, 'error': '%s: %s' % (type(ex).__name__, ex), 'fallback': False}
+                snap = os.path.join(SNAPSHOTS, target)
+                if target in FALLBACK_TARGETS and os.path.exists(snap):
+                    write_if_changed(path, open(snap).read())
+                    prob['fallback'] = True
+                else:
+                    write_if_changed(path, '(* translator refused: %s *)\nTranslator_refused_this_source_form.\n'
+                                     % str(ex).replace('*)', '* )'))
+                problems.append(prob)
     return (not problems), problems, fps
+
+
+def gen_dependencies(roots):
+    """Gen/*.v files in the dependency closure (coqdep) of the given .v files (paths relative to coq/)."""
+    rc, out, _ = sh('coqdep -Q . TV %s' % ' '.join(coq_files()), cwd=COQ, timeout=120)
+    deps = {}
+    for line in out.split('\n'):
+        if '.vo ' not in line.split(':')[0] + ' ' or ':' not in line:
+            continue
+        lhs, rhs = line.split(':', 1)
+        tgt = lhs.split()[0]
+        if not tgt.endswith('.vo'):
+            continue
+        deps[tgt[:-1]] = [d[:-1] for d in rhs.split() if d.endswith('.vo')]
+    seen, todo = set(), [r for r in roots]
+    while todo:
+        f = todo.pop()
+        if f in seen:
+            continue
+        seen.add(f)
+        todo.extend(deps.get(f, []))
+    return sorted(os.path.basename(f) for f in seen if f.startswith('Gen/'))
+
+
+def model_roots(pid):
+    """Props/<pid>.v plus every Model/*Run.v (the runners of the correspondence checks) named by the property's python
+    module and the helper modules it imports."""
+    roots = ['Props/%s.v' % pid]
+    pdir = os.path.join(ROOT, 'lib', 'props')
+    todo, seen = [os.path.join(pdir, pid.lower() + '.py')], set()
+    while todo:
+        f = todo.pop()
+        if f in seen or not os.path.exists(f):
+            continue
+        seen.add(f)
+        src = open(f).read()
+        for m in re.findall(r'\b(?:Model|Proofs)\.(\w+)', src):
+            for d in ('Model', 'Proofs'):
+                if os.path.exists(os.path.join(COQ, d, m + '.v')):
+                    roots.append('%s/%s.v' % (d, m))
+        for m in re.findall(r'(?m)^\s*from\s+\.\s+import\s+(.+)$', src):
+            for name in re.split(r'[,\s]+', m):
+                name = name.split(' as ')[0].strip()
+                if name:
+                    todo.append(os.path.join(pdir, name + '.py'))
+        for m in re.findall(r'(?m)^\s*from\s+\.(\w+)\s+import', src):
+            todo.append(os.path.join(pdir, m + '.py'))
+        for m in re.findall(r'(?m)^\s*from\s+\.\.(\w+)\s+import', src):
+            todo.append(os.path.join(ROOT, 'lib', m + '.py'))
+        for m in re.findall(r'(?m)^\s*from\s+\.\s+import\s+(\w+)\s+as', src):
+            todo.append(os.path.join(pdir, m + '.py'))
+    return sorted(set(roots))
 
 
 def fingerprint_changes(fps):
